@@ -154,16 +154,7 @@ class HelicityModel:
         Constructed from `intensity` by substituting its amplitude symbols with the
         definitions with `amplitudes`.
         """
-
-        def unfold_poolsums(expr: sp.Expr) -> sp.Expr:
-            new_expr = expr
-            for node in sp.postorder_traversal(expr):
-                if isinstance(node, PoolSum):
-                    new_expr = new_expr.xreplace({node: node.evaluate()})
-            return new_expr
-
-        intensity = self.intensity.evaluate()
-        intensity = unfold_poolsums(intensity)
+        intensity = _unfold_poolsums(self.intensity)
         return intensity.xreplace(self.amplitudes)
 
     def rename_symbols(
@@ -221,6 +212,16 @@ class HelicityModel:
         for expr in self.kinematic_variables.values():
             symbols |= expr.free_symbols  # type: ignore[arg-type]
         return symbols
+
+
+def _unfold_poolsums(expr: sp.Expr) -> sp.Expr:
+    if isinstance(expr, PoolSum):
+        expr = expr.evaluate()
+    new_expr = expr
+    for node in sp.postorder_traversal(expr):
+        if isinstance(node, PoolSum):
+            new_expr = new_expr.xreplace({node: node.evaluate()})
+    return new_expr
 
 
 class ParameterValues(abc.Mapping):
@@ -453,7 +454,20 @@ class HelicityAmplitudeBuilder:
 
         amplitude = self.config.spin_alignment.formulate_amplitude(self.reaction)
         spin_projections = collect_spin_projections(self.reaction)
-        return PoolSum(sp.Abs(amplitude) ** 2, *spin_projections.items())
+        intensity = PoolSum(sp.Abs(amplitude) ** 2, *spin_projections.items())
+        self.__register_vanishing_amplitudes(intensity)
+        return intensity
+
+    def __register_vanishing_amplitudes(self, intensity: PoolSum) -> None:
+        """Define amplitudes for helicity combinations without any transition.
+
+        The intensity sums over all combinations of the spin projections of the outer
+        states, but not each combination needs to have a transition.
+        """
+        unfolded_intensity = _unfold_poolsums(intensity)
+        for symbol in sorted(unfolded_intensity.atoms(sp.Indexed), key=str):
+            if symbol not in self.__ingredients.amplitudes:
+                self.__ingredients.amplitudes[symbol] = sp.S.Zero
 
     def __register_amplitudes(self, transition_group: list[StateTransition]) -> None:
         transition_by_topology = group_by_topology(transition_group)
